@@ -5,6 +5,7 @@ import (
 	"fmt"
 	"math/rand"
 	"os"
+	"runtime/debug"
 	"strings"
 	"time"
 
@@ -67,6 +68,9 @@ func (q *Querier) Query(v *View, x int64, committed uint64) {
 	defer func() {
 		if rec := recover(); rec != nil {
 			q.Panics[kind]++
+			if os.Getenv("SIM_TRACE") != "" {
+				fmt.Fprintf(os.Stderr, "TRACE handler %s panics: %v\n%s\n", kind, rec, repoFrames(string(debug.Stack()), 10))
+			}
 		}
 	}()
 	var err error
